@@ -21,7 +21,9 @@ Check(i) == LET o == Rec(i) IN
    /\ Chk(AllOrNothing(o), "C06", "Atomic", o)
    /\ Chk(WFStruct(o.pre) => WFStruct(o.post), "C03", "WF", o)
    /\ Chk(UniqueSiblings(o.pre) => UniqueSiblings(o.post), "C04", "UniqueSiblings", o)
-   /\ IF Justified(o) THEN TRUE ELSE Say("DIVERGENCE", "-", "-", o)
+   \* a merge is refused only for a conflict the property names (strict mode) or because no merge can satisfy the
+   \* postcondition; in particular texts that differ in case / whitespace only are no conflict
+   /\ Chk(Justified(o), "C13", "RefusedOnlyForAConflict", o)
 JInit == l = 1
 JNext == l <= Len(Obs0) /\ (Check(l) = TRUE) /\ l' = l + 1
 JSpec == JInit /\ [][JNext]_l
